@@ -11,6 +11,26 @@ CHECKS = {
         text="Every observed call of the displacement-tensor API (thousands of random small systems over all cell shapes/pbc masks/cutoff classes, plus the calls SBC and Classifier really make) is judged pair-by-pair against an independent brute-force minimum-image oracle; the native sources are rebuilt from the working tree and also run under ASan+UBSan. Held = no judged pair deviated; nothing is claimed about inputs outside the sampled family.",
         note="Trusted: numpy linear algebra, ASE find_mic (cross-check), the pybind11 stand-in + ctypes adapter (validated bit-for-bit against the installed binding at setup). Sanitizers only see executed paths.",
         ref="DESIGN.md §4, §6 C10"),
+    "C16": dict(
+        technique="runtime postconditions on get_extended_system / get_cell_list / neighbour queries / get_matches(_simple) (direct + in situ) vs brute-force image enumeration; structural walk of the live cell-list bins; installed binding, fresh build, ASan+UBSan build",
+        text="Every observed extension, neighbour query and position match is compared with a brute-force enumeration of periodic images (exact point-to-parallelepiped distance for completeness of the extension); the live bins of every cell list built from the fresh sources are walked (each stored position in exactly one in-range bin, bin edge >= cutoff). Held = no judged call deviated on the sampled family; the native code is additionally run under ASan+UBSan.",
+        note="Trusted: numpy; the pybind11 stand-in/ctypes adapter (bit-identical to the installed binding at setup). Domain = atoms inside the cell, probes inside the cell along periodic axes; other calls are counted out_of_domain.",
+        ref="DESIGN.md §4, §6 C16"),
+    "C09": dict(
+        technique="runtime postcondition on get_dimensionality (direct + in situ) vs union-find/cycle-lattice rank model; relational monitor over presentations (lattice shifts, permutation, rigid motion, supercell, basis change)",
+        text="Each observed result is compared with an independent model of the periodic bonding network (integer edge offsets, spanning forest potentials, rank of the cycle lattice) and with the results for re-presentations of the same structure. Held on the sampled family of small systems and on the prototype cells PeriodicFinder really evaluates.",
+        note="Trusted: numpy matrix_rank, ASE radii tables. Inputs with a pair within 1e-9 of the bonding threshold or with integer rank != GF(2) rank are counted and not judged.",
+        ref="DESIGN.md §6 C09"),
+    "C19": dict(
+        technique="runtime postcondition on get_radii (exhaustive Z=1..103 x presets, and every in-situ call) vs ASE tables; preset-vs-explicit-array equivalence runs of get_dimensionality and SBC in crash-isolated workers",
+        text="The preset table is swept exhaustively on every run and every internal get_radii call is judged; equivalence of preset and explicit array is observed on random structures that contain elements without vdW radii. A worker that dies (NaN reaching native code) is attributed to its case and reported.",
+        note="Trusted: ase.data.covalent_radii / vdw_alvarez.vdw_radii as the documented tables.",
+        ref="DESIGN.md §6 C19"),
+    "C20": dict(
+        technique="icontract postconditions (snapshot+ensure, record-and-return) on to_scaled/to_cartesian/get_minimized_cell/swap_basis/complete_cell, direct and in situ; driver relations for round trips, periodic centre of mass and inertia eigen-decomposition",
+        text="Contracts stated from the property are evaluated on every call of the real helpers (tens of thousands per run, including the calls SBC, Classifier and the 2D symmetry path make); centre-of-mass equivariance/invariance and the inertia decomposition are checked against independently assembled references.",
+        note="Trusted: numpy linear algebra, icontract. Ill-conditioned centre-of-mass inputs (circular resultant < 1e-6) are counted and skipped.",
+        ref="DESIGN.md §6 C20"),
 }
 
 PENDING = {}
